@@ -365,6 +365,10 @@ def run_check(pid, tier, builder):
         if w.timed_out:
             agg["inconclusive"].append("%s worker %d: time budget hit" % (w.job["prop"], w.idx))
             continue
+        if w.rc == -9:
+            # SIGKILL is only sent by the kernel's OOM killer (or an operator): load noise, never a violation
+            agg["inconclusive"].append("%s worker %d: killed by SIGKILL (out of memory?)" % (w.job["prop"], w.idx))
+            continue
         if w.rc == 0:
             continue
         if w.rc == 1 and os.path.exists(w.prefix + ".fail.choices"):
